@@ -43,6 +43,21 @@ def run_chunked(binary, cases, size, timeout):
     return obs
 
 
+def tlc_many(res, jobs):
+    """run several TLC configurations side by side; jobs = [(module, cfg name, cfg text, workers)] -> {cfg: result}"""
+    import concurrent.futures
+    with concurrent.futures.ThreadPoolExecutor(max_workers=len(jobs)) as ex:
+        futs = {cfg: ex.submit(vlib.run_tlc, module, cfg, timeout=1800, workers=workers, cfg_text=text) for module, cfg, text, workers in jobs}
+        out = {cfg: f.result() for cfg, f in futs.items()}
+    for module, cfg, text, workers in jobs:
+        r = out[cfg]
+        vlib.tlc_ok(r, cfg)
+        if r["violated"]:
+            raise Undecided("MODEL-DRIFT: %s violates %s\n%s" % (cfg, r["violated"], r["out"][-3000:]))
+        res.tlc(r, cfg)
+    return out
+
+
 # ======================================================================================================
 # C16  path jail
 # ======================================================================================================
@@ -157,23 +172,14 @@ def run_c16(res, tier, rng, binary):
     known = known_by_dev("C16")
     alpha = '{"N","T","D","U","E","R","S"}'
     base = dict(Alphabet=alpha, Schemes='{"distinct","same","short"}', Worlds='{"bare","sib"}', OpSeqs='{"qdcd","wqd"}')
-    # ---- E1: the validating implementation keeps every touch under the root (all keys of <= 4 components)
-    cfg = "PathJail_pure.cfg"
-    r = vlib.run_tlc("PathJail", cfg, timeout=1500,
-                     cfg_text=vlib.cfg_text(dict(base, MaxLen=3 if quick else 4, Deviations="{}"), invariants=["TouchedUnderRoot", "TreeShaped"]))
-    vlib.tlc_ok(r, cfg)
-    if r["violated"]:
-        raise Undecided("MODEL-DRIFT: %s violates %s\n%s" % (cfg, r["violated"], r["out"][-3000:]))
-    res.tlc(r, cfg)
-    # ---- E1 + case export: the unchanged tree, exact touch sets per step
-    cfg = "PathJail_dev.cfg"
-    r = vlib.run_tlc("PathJail", cfg, timeout=1500, workers=4,
-                     cfg_text=vlib.cfg_text(dict(base, MaxLen=4, Deviations='{"JoinUnchecked"}'),
-                                            invariants=["DeviationsExplainAll", "TreeShaped", "Emit"]))
-    vlib.tlc_ok(r, cfg)
-    if r["violated"]:
-        raise Undecided("MODEL-DRIFT: %s violates %s\n%s" % (cfg, r["violated"], r["out"][-3000:]))
-    res.tlc(r, cfg)
+    # ---- E1: the validating implementation keeps every touch under the root; the unchanged tree leaves it only with
+    #          the Escapes signature, and its exact touch sets per step are exported for the replay
+    out = tlc_many(res, [
+        ("PathJail", "PathJail_pure.cfg", vlib.cfg_text(dict(base, MaxLen=3 if quick else 4, Deviations="{}"),
+                                                         invariants=["TouchedUnderRoot", "TreeShaped"]), None),
+        ("PathJail", "PathJail_dev.cfg", vlib.cfg_text(dict(base, MaxLen=4, Deviations='{"JoinUnchecked"}'),
+                                                        invariants=["DeviationsExplainAll", "TreeShaped", "Emit"]), 4)])
+    r = out["PathJail_dev.cfg"]
     allc = r["records"].get("CASE", [])
     if r["records"].get("BAD") or sum(len(c["steps"]) + 1 for c in allc) != r["distinct"]:
         raise Undecided("TLC case export incomplete: %d cases, %d states" % (len(allc), r["distinct"]))
@@ -533,17 +539,16 @@ def run_c14(res, tier, rng, binary):
     devs = '{"RejectedLeavesQueued", "ReorderedByPosition"}'
     inv = ["SetAlgebraDecidesNames", "CoercionListExact", "PureIsProperty", "PairDeviationsExplainAll", "Emit"]
     runs = {}
+    jobs = []
     for name, consts in (("single", dict(Names='{"a","b","c"}', MaxCols=3, NTypes=2, MaxBuckets=1)),
                          ("double", dict(Names='{"a","b"}', MaxCols=2, NTypes=2, MaxBuckets=2))):
-        cfg = "Schema_pairs_%s.cfg" % name
-        r = vlib.run_tlc("Schema", cfg, timeout=1500, workers=4,
-                         cfg_text=vlib.cfg_text(dict(Mode='"pairs"', Deviations=devs, **consts, **HDR_DUMMY), invariants=inv))
-        vlib.tlc_ok(r, cfg)
-        if r["violated"]:
-            raise Undecided("MODEL-DRIFT: %s violates %s\n%s" % (cfg, r["violated"], r["out"][-3000:]))
-        res.tlc(r, cfg)
+        jobs.append(("Schema", "Schema_pairs_%s.cfg" % name,
+                     vlib.cfg_text(dict(Mode='"pairs"', Deviations=devs, **consts, **HDR_DUMMY), invariants=inv), 4))
+    out = tlc_many(res, jobs)
+    for name in ("single", "double"):
+        r = out["Schema_pairs_%s.cfg" % name]
         if r["records"].get("BAD") or not r["records"].get("CASE"):
-            raise Undecided("TLC case export incomplete for %s" % cfg)
+            raise Undecided("TLC case export incomplete for %s" % name)
         runs[name] = r["records"]["CASE"]
     # group the behaviours of a request (one per map iteration order)
     reqs = collections.OrderedDict()
@@ -763,18 +768,9 @@ def run_c15(res, tier, rng, binary):
     consts = dict(Mode='"header"', Counts="{1, 2, 255, 437, 438, 1024, 1025}", Lens="{1, 31, 32, 33, 40, 64}", TypePats="{1, 2, 3, 4, 5, 6, 7, 8, 9, 10, 11, 12}",
                   RecTypes='{"F", "V"}', Tfs='{"1D", "1Min"}', WritePats='{"none", "mid", "first"}', **PAIR_DUMMY)
     inv = ["PureHeaderFaithful", "RegionsFit", "HeaderDeviationsExplainAll", "HoleOnlyDaily"]
-    cfg = "Schema_header_pure.cfg"
-    r = vlib.run_tlc("Schema", cfg, timeout=1500, cfg_text=vlib.cfg_text(dict(consts, Deviations="{}"), invariants=inv))
-    vlib.tlc_ok(r, cfg)
-    if r["violated"]:
-        raise Undecided("MODEL-DRIFT: %s violates %s\n%s" % (cfg, r["violated"], r["out"][-3000:]))
-    res.tlc(r, cfg)
-    cfg = "Schema_header_dev.cfg"
-    r = vlib.run_tlc("Schema", cfg, timeout=1500, workers=4, cfg_text=vlib.cfg_text(dict(consts, Deviations=devs), invariants=inv + ["Emit"]))
-    vlib.tlc_ok(r, cfg)
-    if r["violated"]:
-        raise Undecided("MODEL-DRIFT: %s violates %s\n%s" % (cfg, r["violated"], r["out"][-3000:]))
-    res.tlc(r, cfg)
+    out = tlc_many(res, [("Schema", "Schema_header_pure.cfg", vlib.cfg_text(dict(consts, Deviations="{}"), invariants=inv), None),
+                         ("Schema", "Schema_header_dev.cfg", vlib.cfg_text(dict(consts, Deviations=devs), invariants=inv + ["Emit"]), 4)])
+    r = out["Schema_header_dev.cfg"]
     allc = sorted(r["records"].get("HDR", []), key=lambda c: json.dumps(c, sort_keys=True))
     if r["records"].get("BAD") or len(allc) * 3 != r["distinct"]:
         raise Undecided("TLC case export incomplete: %d cases, %d states" % (len(allc), r["distinct"]))
